@@ -160,6 +160,39 @@ func runC07(rc *RunCtx) {
 			return
 		}
 	}
+	if sc2 == nil && !rc.Scen.Has("cutmode") && rc.Scen.Chance(1, 120) {
+		// a long history of other exchanges on the same client comes first (some clients of slow devices: every reply
+		// of the history takes a few milliseconds); every response handed out stays what it was
+		slow := rc.Scen.Chance(1, 3)
+		hist := genHistory(rc, sc, historyLen(rc.Scen), slow)
+		calls := append(append([]*C1(nil), hist...), sc)
+		first := RunC1Long(rc, chainCalls(calls))
+		rc.Desc = sc.describe()
+		rc.Desc["exchanges_before_on_this_client"] = len(hist)
+		rc.Desc["history_replies_slow"] = slow
+		rc.Nontrivial = true
+		base := fmt.Sprintf("client=%s|after_long_history", sc.Kind)
+		if first.Panic != nil {
+			rc.Violate("panic", base, "panic in %s: %s", first.Panic.Task, first.Panic.Value)
+			return
+		}
+		failed, changed := historyTrouble(hist, first)
+		rc.Fault("long_history_before_the_call", failed == "")
+		if failed != "" {
+			rc.Violate("fails_after_many_calls", base, "%s (hang=%v overstep=%v)", failed, first.Hang, first.OverStep)
+			return
+		}
+		if changed != "" {
+			rc.Violate("earlier_response_changed", base, "%s", changed)
+		}
+		main := outcomeOf(first, len(hist))
+		if main == nil {
+			rc.Violate("hang", base, "the call after %d healthy exchanges did not take place (hang=%v overstep=%v)", len(hist), first.Hang, first.OverStep)
+			return
+		}
+		checkC07(rc, sc, main)
+		return
+	}
 	if sc2 == nil && !rc.Scen.Has("cutmode") && !sc.LongSilence && !sc.IsExc && totalGap(sc.Chunks) == 0 && rc.Scen.Chance(1, 150) {
 		sc.Marathon = 260 + rc.Scen.Choose(80) // past 256 repetitions of the same poll
 		sc.ReadTimeout = max(sc.ReadTimeout, 100*time.Millisecond)
